@@ -1427,12 +1427,8 @@ func failedWriteNoEffect(c *Ctx, rule string) {
 				continue
 			}
 			for _, f := range finish {
-				if f.Block() == blk {
-					reported = true
-					continue
-				}
 				// a path that fetches the next batch, or retries the sync, is not a report of this failure
-				if r, _ := CutReach(fn, blk.Instrs[0], f.(ssa.Instruction), append(instrs(next), instrs(syncs)...), nil); r {
+				if r, _ := reachFromBlock(fn, blk, f.(ssa.Instruction), append(instrs(next), instrs(syncs)...)); r {
 					reported = true
 				}
 			}
